@@ -325,7 +325,8 @@ DistinctOrds(S) == {o \in S : \A o2 \in S : o2.ord = o.ord => o2.name = o.name}
 \* ---- layer A evaluated once per program (kept in the case record; identical for every permutation because node keys
 \*      and the declarative semantics do not mention positions)
 IncsOfRefs(al) == {r.idx + 1 : r \in al}          \* NoRef has idx -1: position 0 = the file itself
-ExpTypes(p, sym) == [f \in 1 .. NFiles(p) |-> {[key |-> n.key, al |-> AllowedTypeS(p, sym, f, n.t)] : n \in FileTypeNodes(p, f)}]
+ExpTypes(p, sym) == [f \in 1 .. NFiles(p) |-> {[key |-> n.key, al |-> AllowedTypeS(p, sym, f, n.t), dr |-> DerefS(p, sym, f, n.t)]
+                                               : n \in FileTypeNodes(p, f)}]
 ExpIdNode(key, T, al) == [key |-> key, nt |-> Cardinality(T), al |-> al]
 ExpIdNodeT(p, sym, f, n, T) == ExpIdNode(n.key, T, AllowedExtraS(p, sym, f, n.segs, T))
 ExpIds(p, sym) == [f \in 1 .. NFiles(p) |-> {ExpIdNodeT(p, sym, f, n, ValTargetsS(p, sym, f, n.segs)) : n \in FileIdNodes(p, f)}]
@@ -337,7 +338,8 @@ ExpOf3(p, types, ids, exts) ==
   [types |-> UNION {types[f] : f \in 1 .. NFiles(p)},
    ids |-> UNION {ids[f] : f \in 1 .. NFiles(p)},
    exts |-> UNION {exts[f] : f \in 1 .. NFiles(p)},
-   used |-> [f \in 1 .. NFiles(p) |-> UsedOf(p, f, IncSets(types[f], ids[f], exts[f]))]]
+   used |-> [f \in 1 .. NFiles(p) |-> UsedOf(p, f, IncSets(types[f], ids[f], exts[f]))],
+   n2c |-> [f \in 1 .. NFiles(p) |-> N2C(p, f)]]
 ExpOfS(p, sym) == ExpOf3(p, ExpTypes(p, sym), ExpIds(p, sym), ExpExts(p))
 ExpOf(p) == ExpOfS(p, Sym(p))
 StatusOf(p, exp) ==
@@ -409,6 +411,7 @@ BRefinesA ==
     /\ (S.err = "" => St \in {"unique", "ambiguous"})
     /\ (St = "unique" => S.err = "")
     /\ (S.err = "" => \A key \in BadOf(c.prog, c.exp, S) : EnumSelCandidate(c.prog, S, key))
+    /\ (S.err = "" => \A f \in 1 .. NFiles(c.prog) : S.n2c[f] = c.exp.n2c[f])
 
 \* the final resolution state does not depend on the order of the definitions
 OrderIndependent == (Finished /\ c.perm # "id") => BRes(S) = c.baseres
